@@ -45,6 +45,13 @@ def make_config(rng, **ov):
     start = date(rng.choice([2021, 2022, 2023]), rng.choice([1, 1, 3, 7, 11]), 1)
     ndays = ov.get("ndays", rng.choice([120, 200, 400, 500]))
     end = start + timedelta(days=ndays - 1)
+    if not ov.get("allow_trailing_year", False) and (end.month, end.day) < (start.month, start.day):
+        # ScheduledSurveyPlanner._get_simulation_years drops a trailing partial year; a routine survey
+        # completing in it crashes the run (KeyError, finding recorded under C06).  Generated
+        # configurations avoid that shape unless asked for.
+        end = date(end.year - 1, 12, 31) if end.year > start.year else end
+        if end <= start:
+            end = date(start.year, 12, 31)
     n_sites = ov.get("n_sites", rng.randint(4, 10))
     cfg = {
         "granular": granular,
